@@ -214,7 +214,11 @@ def c10(prop, tier, verdict):
 def c13(prop, tier, verdict):
     def cl(line, s):
         ops = '-'.join(x['op'] for x in s.get('steps', []))
-        return 'redial:%s%s/budget=%s' % (line.get('ev'), ':expect=' + str(line.get('expect')) if line.get('expect') else '', (s.get('steps') or [{}])[0].get('budget'))
+        extra = ''
+        if line.get('ev') == 'Probe' and line.get('expect') == 'healthy' and not line.get('health'):
+            # how the session failed to be healthy: its status, whether it was notified, whether both the reader and a caller redialed
+            extra = ':status=%s:notified=%s%s' % (line.get('status'), line.get('notified'), ':doubleredial' if (line.get('redialhooks') or 0) > (line.get('losses') or 0) else '')
+        return 'redial:%s%s%s/budget=%s' % (line.get('ev'), ':expect=' + str(line.get('expect')) if line.get('expect') else '', extra, (s.get('steps') or [{}])[0].get('budget'))
     cov, _ = eng_generic.run(prop, tier, verdict, 'Redial', 'redial', 'PRedial', cl, consts={'MaxOps': '8' if tier == 'thorough' else '7', 'Budgets': '{0, 2, 3, 99}'},
                              mc_cfg='Redial_mc.cfg', extra_cfg='VIEW view', min_count=500, nontrivial=lambda s: any(x['op'] in ('cut', 'down') for x in s.get('steps', [])))
     return 'model_checking', cov, ['real loopback TCP through a forwarder that can refuse connections and cut existing ones; redial interval 3 ms; budgets 0, 2 and unlimited',
